@@ -170,7 +170,11 @@ fn run<const N: usize>(kind: CipherKind, is22: bool, f: &[&str]) -> Vec<String> 
                     continue;
                 }
                 let (c, arg) = op.split_at(1);
-                if c == "D" {
+                if c == "P" {
+                    // place the session's packet counter (hook): reaches the end of the 64-bit id space
+                    codec.verif_set_packet_id(u64::from_str_radix(arg, 16).unwrap());
+                    out.push("SET".into());
+                } else if c == "D" {
                     let mut src = BytesMut::from(&unhex(arg)[..]);
                     out.push(match catch(|| codec.decode(&mut src)) {
                         Ok(Ok(None)) => "NONE".into(),
@@ -605,6 +609,15 @@ pub fn generate(w: &mut dyn Write, seed: u64, thorough: bool) {
                 let a: Vec<String> = vec!["ssudp".into(), "dg".into(), kname.into(), hex(&skey), "-".into(), rp.into(), now.to_string(), ops.join(";")];
                 crate::emit_case(w, &a, exec);
             }
+        }
+        // the end of the packet id space: the last ids are used once each, then the session refuses to send (no wrap-around to ids already used)
+        for start in [u64::MAX - 3, u64::MAX - 1, u64::MAX] {
+            let mut ops: Vec<String> = vec!["E4:7f000001:80,aa".into(), format!("P{:x}", start)];
+            for _ in 0..6 {
+                ops.push("E4:7f000001:80,bbcc".into());
+            }
+            let a: Vec<String> = vec!["ssudp".into(), "dg".into(), kname.into(), hex(&skey), "-".into(), "1".into(), now.to_string(), ops.join(";")];
+            crate::emit_case(w, &a, exec);
         }
     }
 }
